@@ -549,6 +549,7 @@ package astits
 //@   ensures [C04,C11] nopayload: fits && !p.Header.HasPayload && len(p.Payload) == 0 ==> wN(w) == n0 + targetPacketSize && aligned(w)
 //@   ensures [C04,C11] reject: !fits ==> retErr != nil && written == 0
 //@   ensures [C18] surfaced: wF(w) != old(wF(w)) ==> retErr != nil
+//@   ensures [C16] keeps: len(p.Payload) == old(len(p.Payload)) && cap(p.Payload) == old(cap(p.Payload)) && p.AdaptationField == old(p.AdaptationField)
 //@   loop 0 invariant [W] pad: aligned(w) && written <= targetPacketSize && wN(w) == atentry(wN(w)) + iter && written == atentry(written) + iter
 //@   loop 0 invariant [W] ePad: fits && atentry(written) == 4 + afb + ite(p.Header.HasPayload, len(p.Payload), 0) && atentry(wN(w)) == n0 + atentry(written)
 //@   loop 0 invariant [C18] nofail: wF(w) == old(wF(w))
@@ -1163,3 +1164,13 @@ package astits
 //@   ensures [C04] count: result1 == nil ==> wN(m.bitsWriter) == old(wN(m.bitsWriter)) + result0
 //@   ensures [C04] whole: result1 == nil ==> m188(result0)
 //@   ensures [C04] stuffingreset: result1 == nil && d.AdaptationField != nil ==> d.AdaptationField.StuffingLength == 0
+
+// NewMuxer: the tables go out with the very first data (the retransmit counter starts at the period, whatever
+// the options did), and the Muxer representation invariant holds.
+//@ func NewMuxer
+//@   opt noframe
+//@   opt noloopframe
+//@   ensures [C17] start: result != nil && result.tablesRetransmitCounter == result.tablesRetransmitPeriod
+// A Muxer option is library code handed a *Muxer: it may set any of its fields.
+//@ extern type:func__astits.Muxer_
+//@   modifies all(arg0)
